@@ -12,6 +12,7 @@ def seeded(U, rnd, quick):
             if rnd.random() < 0.3: s = rnd.choice(["0:", "1:", "2:"]) + s
             if rnd.random() < 0.3: s += "-" + "".join(rnd.choice("019a.+~") for _ in range(rnd.randint(1, 3)))
             if rnd.random() < 0.15: s = re.sub(r"\d", lambda m: m.group(0) * rnd.choice([1, 1, 21]), s, count=1)
+            if rnd.random() < 0.12: s = re.sub(r"\d+", lambda m: rnd.choice(["18446744073709551616", "00018446744073709551616", "0018446744073709551617", "98446744073709551616", "018446744073709551615"]), s, count=1)
             texts.add(s)
         jobs.append({"k": "matrix", "eco": "debian", "tag": "seeded", "texts": sorted(texts), "part": []})
     return jobs
